@@ -532,8 +532,10 @@ def main():
     txt = "\n".join(L) + "\n"
     old = open(OUT).read() if os.path.exists(OUT) else None
     if old != txt:
-        with open(OUT, "w") as f:
+        _tmp = OUT + ".tmp%d" % os.getpid()
+        with open(_tmp, "w") as f:
             f.write(txt)
+        os.replace(_tmp, OUT)  # atomic: a concurrent coqc never sees a partial file
     return {"removed": d["removed"], "ts_synonyms": d["ts_synonyms"], "rules": d["rules"], "combine": d["combine"],
             "unit": d["unit"], "barrierless": b, "balance": [c[:3] for c in checks], "steps": steps,
             "classify_rules": len(rules), "lowest_unit": lowest_unit, "checkpoint_s": thr, "sha256": sha}
